@@ -13,6 +13,7 @@ import collections
 import concurrent.futures as cf
 import dataclasses
 import faulthandler
+import gc
 import hashlib
 import json
 import multiprocessing
@@ -87,6 +88,7 @@ class Simulator:
     run_watchdog_s = 120
     recursion_headroom = 900
     crash_rule = ""               # rule id charged when the code under test raises unexpectedly
+    gc_every = 50                 # full garbage collection between runs, every so many runs
     prepared_state = None          # JSON-able; handed to the fresh interpreter of the self-test
     expected_probes: List[str] = []
 
@@ -151,10 +153,27 @@ def run_one(sim: Simulator, tape: Tape) -> RunResult:
     # relative to the depth of this frame.
     old_limit = sys.getrecursionlimit()
     sys.setrecursionlimit(_stack_depth() + sim.recursion_headroom)
+    # The cyclic garbage collector must not fire inside a run: when it does depends on the allocation
+    # history of the process, and collecting an abandoned async generator (cancelled call, dropped
+    # response iterator) schedules an aclose() task on the running loop - one more source of
+    # nondeterminism behind a seam.  Reference counting (deterministic) still frees what it can;
+    # cycles are collected between runs.
+    was_enabled = gc.isenabled()
+    gc.disable()
+    global _RUNS_SINCE_GC
     try:
         return _run_one(sim, tape, trace, stats)
     finally:
         sys.setrecursionlimit(old_limit)
+        _RUNS_SINCE_GC += 1
+        if _RUNS_SINCE_GC >= sim.gc_every:
+            _RUNS_SINCE_GC = 0
+            gc.collect()
+        if was_enabled:
+            gc.enable()
+
+
+_RUNS_SINCE_GC = 0
 
 
 def _run_one(sim: Simulator, tape: Tape, trace, stats) -> RunResult:
